@@ -31,6 +31,29 @@ struct Sys {
     only_new: bool,
     /// message alphabet of set_message
     msgs: Vec<String>,
+    /// interleaving pass: a call on a SECOND live archive (other format, other keys) before
+    /// every call of the history — state kept outside the object is consumed by the wrong one
+    decoy: bool,
+}
+
+fn decoy_step(d: &mut TextArchive, k: usize) {
+    match k % 6 {
+        0 => d.set_message("a", "decoy\\nA"),
+        1 => d.set_message("zz", "decoy"),
+        2 => {
+            let _ = d.get_message("a");
+            let _ = d.serialize();
+        }
+        3 => d.delete_message("a"),
+        4 => d.set_title("decoy title".to_string()),
+        _ => {
+            if let Ok(b) = d.serialize() {
+                if let Ok(n) = TextArchive::from_bytes(&b, TextArchiveFormat::ShiftJIS, Endian::Big) {
+                    *d = n;
+                }
+            }
+        }
+    }
 }
 
 /// Second message alphabet ("text"): characters outside Shift-JIS that look like members
@@ -59,7 +82,11 @@ impl Sys {
         t.set_message("b", "seed\\nB");
         t.set_message("a", "seedA");
         let parsed_image = t.serialize().expect("serialize seed");
-        Sys { keys, fmt, endian, parsed_image, only_new: false, msgs: MSGS.iter().map(|m| m.to_string()).collect() }
+        Sys { keys, fmt, endian, parsed_image, only_new: false, msgs: MSGS.iter().map(|m| m.to_string()).collect(), decoy: false }
+    }
+    fn with_decoy(mut self) -> Sys {
+        self.decoy = true;
+        self
     }
     fn with_text_msgs(mut self) -> Sys {
         self.msgs = TEXT_MSGS.iter().map(|m| m.to_string()).collect();
@@ -193,8 +220,15 @@ impl System for Sys {
         let r = util::catch(|| {
             let mut t = self.fresh(s.0.init);
             // the init state itself must match (clean flag on new / parsed archives)
-            for o in history {
+            let mut decoy = TextArchive::new(TextArchiveFormat::ShiftJIS, Endian::Big);
+            for (k, o) in history.iter().enumerate() {
+                if self.decoy {
+                    decoy_step(&mut decoy, k);
+                }
                 self.apply_on(&mut t, o);
+            }
+            if self.decoy {
+                decoy_step(&mut decoy, history.len());
             }
             // every query once BEFORE the call on this same instance (a lookup cache filled
             // here must not survive the call)
@@ -206,6 +240,16 @@ impl System for Sys {
             let _ = t.is_dirty();
             let _ = t.get_entries().len();
             self.apply_on(&mut t, op);
+            if self.decoy {
+                // the second archive is read between the call and the observations
+                for k in ["a", "b", "zz"] {
+                    let _ = decoy.get_message(k);
+                    let _ = decoy.has_message(k);
+                }
+                let _ = decoy.get_title().to_string();
+                let _ = decoy.is_dirty();
+                let _ = decoy.get_entries().len();
+            }
             let mut d = self.observe(&t, &model, matches!(op, Op::Reload));
             // storing a looked-up message back changes nothing (but the dirty flag)
             for k in &self.keys {
@@ -330,6 +374,8 @@ fn systems(tier: Tier) -> Vec<(String, Sys)> {
     ];
     v.push(("Unicode/Little/2 keys/text alphabet".to_string(), Sys::new(vec!["a", "ソn"], TextArchiveFormat::Unicode, Endian::Little).with_text_msgs()));
     v.push(("ShiftJIS/Little/2 keys/text alphabet".to_string(), Sys::new(vec!["a", "ソn"], TextArchiveFormat::ShiftJIS, Endian::Little).with_text_msgs()));
+    v.push(("Unicode/Little/3 keys/second live archive interleaved".to_string(), Sys::new(vec!["a", "b", "c"], TextArchiveFormat::Unicode, Endian::Little).with_decoy()));
+    v.push(("ShiftJIS/Big/2 keys/second live archive interleaved".to_string(), Sys::new(vec!["a", "b"], TextArchiveFormat::ShiftJIS, Endian::Big).with_decoy()));
     if tier == Tier::Thorough {
         v.push(("ShiftJIS/Big/3 keys".to_string(), Sys::new(keys3, TextArchiveFormat::ShiftJIS, Endian::Big)));
         v.push(("Unicode/Little/4 keys (depth-bounded)".to_string(), Sys::new(vec!["a", "b", "c", "d"], TextArchiveFormat::Unicode, Endian::Little)));
